@@ -48,7 +48,7 @@ func (g *Gen) callerObligations(prop string) []*Obligation {
 			}
 		}
 		o := &Obligation{Name: target + ".G.callers", Kind: "G", Props: cd.Props, Func: "(call graph)",
-			Clause: target + " is called directly only by " + strings.Join(cd.Callers, ", ") + " (each of them settles the query it ran: see their contracts)"}
+			Clause: target + " is called directly only by " + strings.Join(cd.Callers, ", ") + " (what each of them owes the callee, or does with its result, is in their contracts)"}
 		switch {
 		case !found:
 			o.Static, o.Result = "fails: no direct call of "+target+" found (the declaration is stale)", "failed"
@@ -71,6 +71,10 @@ func (g *Gen) typeObligations(prop string) []*Obligation {
 			continue
 		}
 		o := &Obligation{Name: d.Pkg + ".G.same-type:" + d.A, Kind: "G", Props: d.Props, Func: "(types)", Clause: d.A + " and " + d.B + " denote the same type"}
+		if d.Distinct {
+			o.Name = d.Pkg + ".G.distinct-type:" + d.A
+			o.Clause = d.A + " and " + d.B + " denote different types"
+		}
 		var tp *types.Package
 		for path, sp := range g.spkgs {
 			if strings.HasPrefix(path, modPath) && sp.Pkg.Name() == d.Pkg {
@@ -87,7 +91,9 @@ func (g *Gen) typeObligations(prop string) []*Obligation {
 		switch {
 		case ea != nil || eb != nil || !ta.IsType() || !tb.IsType():
 			o.Static, o.Result = fmt.Sprintf("fails: cannot evaluate the type expressions (%v, %v)", ea, eb), "failed"
-		case !types.Identical(ta.Type, tb.Type):
+		case d.Distinct && types.Identical(ta.Type, tb.Type):
+			o.Static, o.Result = "fails: "+d.A+" is "+tb.Type.String()+" itself (an alias): a type assertion on it matches every such value", "failed"
+		case !d.Distinct && !types.Identical(ta.Type, tb.Type):
 			o.Static, o.Result = "fails: "+ta.Type.String()+" is not "+tb.Type.String(), "failed"
 		default:
 			o.Static = "holds"
